@@ -138,6 +138,49 @@ func (c *c14) staleCiting() gmsl.PDU {
 	return nil
 }
 
+// citesNonState builds, at the tip, an event by a joined user that cites its
+// proper auth events and, next to them, a message event of the room: an event
+// without a state key is never among the auth events the rules select, so the
+// citing event does not pass the auth rules (rule 2 of the specification's
+// list), whatever else it cites. The message itself is an honest event.
+func (c *c14) citesNonState() gmsl.PDU {
+	rm, t := c.rm, c.t
+	var msgs []gmsl.PDU
+	for _, id := range rm.order {
+		if n := rm.nodes[id]; n.main && n.ev.StateKey() == nil {
+			msgs = append(msgs, n.ev)
+		}
+	}
+	if len(msgs) == 0 {
+		return nil
+	}
+	m := sim.Pick(t, msgs)
+	for _, u := range sim.Shuffle(t, rm.users) {
+		if rm.membership(rm.tip.after, u.id) != "join" {
+			continue
+		}
+		typ, sk, content := "m.room.message", (*string)(nil), map[string]any{"body": "cites a message", "msgtype": "m.text"}
+		if t.Bool() {
+			typ, sk, content = "m.room.topic", world.Str(""), map[string]any{"topic": "cites a message"}
+		}
+		honest, err := rm.buildWith(u, []string{rm.tip.id}, rm.tip.ev.Depth()+1, rm.pdus(rm.tip.after), typ, sk, content)
+		if err != nil {
+			continue
+		}
+		ids := append([]string{}, honest.AuthEventIDs()...)
+		at := t.Intn(len(ids) + 1)
+		ids = append(ids[:at], append([]string{m.EventID()}, ids[at:]...)...)
+		pr := world.Proto{RoomID: rm.roomID, Sender: u.id, Type: typ, StateKey: sk, Content: content, Prev: []string{rm.tip.id}, Depth: rm.tip.ev.Depth() + 1, Auth: ids}
+		ev, err := world.Build(rm.impl, pr, rm.nextTS(), u.srv.Name, u.srv.Current())
+		if err != nil {
+			continue
+		}
+		c.bad[ev.EventID()] = ev
+		return ev
+	}
+	return nil
+}
+
 func (c *c14) closure(ev gmsl.PDU) []string {
 	seen := map[string]bool{}
 	var out []string
@@ -240,7 +283,13 @@ func (c *c14) modelChain(target gmsl.PDU) *chainVerdict {
 				auth = append(auth, x)
 			}
 		}
-		if allowedBy(cur, auth) != nil {
+		nonState := false
+		for _, x := range auth {
+			if x.StateKey() == nil {
+				nonState = true // never an auth event the rules select
+			}
+		}
+		if nonState || allowedBy(cur, auth) != nil {
 			v.disallowed = append(v.disallowed, cur.EventID())
 		}
 	}
@@ -249,7 +298,18 @@ func (c *c14) modelChain(target gmsl.PDU) *chainVerdict {
 
 func (c *c14) pickTarget(allowCreate bool) (gmsl.PDU, string) {
 	rm, t := c.rm, c.t
-	switch t.Weighted([]int{5, 2, 2, 1}) {
+	switch t.Weighted([]int{5, 2, 2, 1, 1}) {
+	case 4:
+		// only for the auth-chain walk (the one caller that admits the create
+		// event as a target): the check at the state before an event does not
+		// look at what the event cites
+		if !allowCreate {
+			break
+		}
+		if ev := c.citesNonState(); ev != nil {
+			c.r.Fault("cites_non_state_auth_event")
+			return ev, "cites_non_state"
+		}
 	case 1:
 		if _, ch := c.byzPair(); ch != nil {
 			c.r.Fault("byzantine_event")
